@@ -88,6 +88,8 @@ pub struct Graph {
     pub log_records: usize,
     pub log_templates: std::collections::BTreeSet<u64>,
     pub prejoin: bool,
+    /// start a scenario member that is removed and invited again from the state in which it published its new key package
+    pub rejoin: bool,
 }
 
 pub struct ExploreOpts {
@@ -104,6 +106,7 @@ pub struct ExploreOpts {
     pub welcome_consent: u8,
     /// start joiners from the state before they saw their invitation
     pub prejoin: bool,
+    pub rejoin: bool,
 }
 
 fn snapshot_state(c: &Client, w: &World, pool_ids: &[nostr::EventId], welcome_ids: &[nostr::EventId], depth: usize, parent: Option<(usize, Action)>, keep: bool) -> StateRec {
@@ -304,8 +307,8 @@ pub fn step_on(w: &World, f: Client, a: Action) -> StepOut {
 pub fn explore(w: &World, member: &str, opts: &ExploreOpts) -> Graph {
     let pool_ids = w.pool_ids();
     let welcome_ids = w.welcome_ids();
-    let init = if opts.prejoin && w.prejoin.contains_key(member) && !w.sc.members.iter().any(|m| m == member) { w.prejoin[member].fork() } else { w.initial[member].fork() };
-    let mut g = Graph { member: member.to_string(), regime: opts.regime, states: vec![], edges: vec![], capped: false, transitions: 0, log_records: 0, log_templates: Default::default(), prejoin: opts.prejoin };
+    let init = if opts.prejoin && w.prejoin.contains_key(member) && (opts.rejoin || !w.sc.members.iter().any(|m| m == member)) { w.prejoin[member].fork() } else { w.initial[member].fork() };
+    let mut g = Graph { member: member.to_string(), regime: opts.regime, states: vec![], edges: vec![], capped: false, transitions: 0, log_records: 0, log_templates: Default::default(), prejoin: opts.prejoin, rejoin: opts.rejoin };
     let mut index: HashMap<u64, usize> = HashMap::new();
     let mut live: BTreeMap<usize, Client> = BTreeMap::new();
     let s0 = snapshot_state(&init, w, &pool_ids, &welcome_ids, 0, None, opts.keep_key_json);
@@ -417,7 +420,7 @@ impl Graph {
 pub fn validate_trace(w: &World, g: &Graph, acts: &[Action]) -> Result<(), String> {
     let pool_ids = w.pool_ids();
     let welcome_ids = w.welcome_ids();
-    let mut c = if g.prejoin && w.prejoin.contains_key(&g.member) && !w.sc.members.iter().any(|m| *m == g.member) { w.prejoin[&g.member].fork() } else { w.initial[&g.member].fork() };
+    let mut c = if g.prejoin && w.prejoin.contains_key(&g.member) && (g.rejoin || !w.sc.members.iter().any(|m| *m == g.member)) { w.prejoin[&g.member].fork() } else { w.initial[&g.member].fork() };
     let mut s = 0usize;
     for a in acts {
         let e = g.follow(s, *a).ok_or_else(|| format!("no edge {a:?} in state {s}"))?;
